@@ -27,6 +27,15 @@ def poison_heap(value):
         keep.clear()
 
 
+def process_state():
+    """process-wide settings a library has no business changing: NumPy's floating-point error handling and print
+    options, the recursion limit, the warnings filters"""
+    import sys
+    import warnings
+    return {"np.geterr": dict(np.geterr()), "recursionlimit": sys.getrecursionlimit(),
+            "warnings.filters": len(warnings.filters), "np.printoptions": repr(sorted(np.get_printoptions().items()))}
+
+
 def run_points(case, box=None, labels=None, queries=None, wall_s=300, state_hook=None, poison=None):
     """returns dict(points=[...], last=..., crash=str|None, box_after=..., qpoints=[...])"""
     box_in = copy.deepcopy(box if box is not None else case["box"])
@@ -42,6 +51,7 @@ def run_points(case, box=None, labels=None, queries=None, wall_s=300, state_hook
     P = C.plain_part_class(case["part"], case.get("part_binding"))
     out = {"points": [], "last": None, "crash": None, "qpoints": []}
     budget = C.StepBudget(5 * 10 ** 6)
+    state0 = process_state()
     old = signal.signal(signal.SIGALRM, _alarm)
     signal.alarm(int(wall_s * float(os.environ.get("PYXABMON_WALL_SCALE", "1") or 1)))
     try:
@@ -88,6 +98,10 @@ def run_points(case, box=None, labels=None, queries=None, wall_s=300, state_hook
         budget.off()
         signal.alarm(0)
         signal.signal(signal.SIGALRM, old)
+    state1 = process_state()
+    if state1 != state0:
+        out["process_state_changed"] = {k: (state0[k], state1[k]) for k in state0 if state0[k] != state1[k]}
+        np.seterr(**state0["np.geterr"])  # (the next case of this worker starts from the usual state again)
     return out
 
 
